@@ -6,6 +6,16 @@ From K.Proof Require Import Rendezvous.
 Import ListNotations.
 
 (* ------------------------------------------------------------------ generic theorems *)
+Lemma label_inj ns a b : NoDup (map label ns) -> In a ns -> In b ns -> label a = label b -> a = b.
+Proof.
+  induction ns as [|x t IH]; cbn; [tauto|]. intros ND Ha Hb E.
+  inversion ND as [|? ? Hnin ND']; subst.
+  destruct Ha as [<-|Ha], Hb as [<-|Hb]; auto.
+  - exfalso. apply Hnin. rewrite E. apply in_map, Hb.
+  - exfalso. apply Hnin. rewrite <- E. apply in_map, Ha.
+Qed.
+
+
 Section Generic.
   Variables key T : Type.
   Variable ltb : T -> T -> bool.
@@ -111,15 +121,6 @@ Section Generic.
       apply orb_false_iff in H1, H2. destruct H1 as [H1 H1'], H2 as [H2 H2'].
       rewrite H2 in H1'. rewrite H1 in H2'. cbn in *.
       apply N.ltb_ge in H1', H2'. f_equal; [apply Tc; assumption|lia].
-  Qed.
-
-  Lemma label_inj ns a b : NoDup (map label ns) -> In a ns -> In b ns -> label a = label b -> a = b.
-  Proof.
-    induction ns as [|x t IH]; cbn; [tauto|]. intros ND Ha Hb E.
-    inversion ND as [|? ? Hnin ND']; subst.
-    destruct Ha as [<-|Ha], Hb as [<-|Hb]; auto.
-    - exfalso. apply Hnin. rewrite E. apply in_map, Hb.
-    - exfalso. apply Hnin. rewrite <- E. apply in_map, Ha.
   Qed.
 
   Lemma lex_tie_free ns k : NoDup (map label ns) -> Rendezvous.tie_free (lex_score score) k ns.
@@ -325,11 +326,24 @@ Section Instance.
     assert (EF : o_full o = lab (ord U r)).
     { rewrite <- (lab_map_node_of U (o_full o)). unfold ord. rewrite H1. reflexivity. }
     apply list_eqb_eq in H2, H3, H4.
-    destruct o as [f p t rm]. cbn [o_full o_perm o_top o_rem] in *. subst f.
+    destruct o as [f p t rm]. cbn [o_full o_perm o_top o_rem] in *.
+    rewrite EF in H2, H3, H5. clear H1. subst f p t.
     unfold observe. rewrite EP. f_equal.
-    - exact H2.
-    - rewrite H3. unfold get_ordered_nodes, lab. rewrite firstn_map. reflexivity.
-    - clear H1 H2 H3. revert xs H4 HX H5. clear DOM. induction rm as [|[[x rem] add] rm IH]; intros xs0 H4 HX H5.
+    - unfold get_ordered_nodes, lab. rewrite firstn_map. reflexivity.
+    - assert (G : forall xs0,
+        map (fun t : N * list N * list N => fst (fst t)) rm = xs0 ->
+        (forall x, In x xs0 -> let nx := node_of U x in In nx U /\ label nx = x /\
+           ord (remove_node x U) r = filter (fun n => negb (N.eqb (label n) x)) (ord U r) /\
+           ord (add_node nx (remove_node x U)) r = ord U r) ->
+        forallb (fun '(x, rem, add) =>
+          list_eqb rem (drop x (lab (ord U r))) && list_eqb (drop x add) rem &&
+          existsb (N.eqb x) add && (length add =? S (length rem))%nat &&
+          is_orderingb N.ltb tscore U r (map (node_of U) add)) rm = true ->
+        rm = map (fun x => let R := remove_node x U in
+                     (x, lab (ord R r), lab (ord (add_node (node_of U x) R) r))) xs0);
+        [|apply G; assumption].
+      clear H4 HX H5.
+      induction rm as [|[[x rem] add] rm IH]; intros xs0 H4 HX H5.
       + cbn in H4. subst xs0. reflexivity.
       + cbn in H4. subst xs0. cbn [map forallb] in *. apply andb_true_iff in H5. destruct H5 as [H5 H6].
         destruct (HX x (or_introl eq_refl)) as (Hin & Hl & ER & EA). cbn zeta in *.
@@ -369,4 +383,14 @@ Proof.
   - repeat constructor; cbn; intuition discriminate.
   - apply perm_swap.
   - vm_compute. discriminate.
+Qed.
+
+(* the boolean tie test used by the drivers is the stated hypothesis *)
+Lemma tie_freeb_iff (key T : Type) (ltb : T -> T -> bool) (score : node -> key -> T) :
+  strict_total ltb -> forall k ns,
+  tie_freeb ltb score k ns = true <-> NoDup ns /\ tie_free score k ns.
+Proof.
+  intros (I & Tr & Tc) k ns. split.
+  - apply tie_freeb_spec, I.
+  - intros [ND TF]. apply tie_freeb_complete; assumption.
 Qed.
